@@ -453,11 +453,24 @@ def check_std_properties(ctx, db):
     m = re.search(r'state\.config_flags & (\d+)', norm(wco.child('init').text())) if wco is not None else None
     ctx.check(m is not None and m.group(1) == '8', 'R-TABLE', 'write_oas/cell-offset-flag', w.loc(), 'S_CELL_OFFSET is controlled by its config bit')
     # bounding box extents: rounded corner differences
-    dv = {v.n: norm(v.child('init').text()) for v in w.walk() if v.k == 'VarDecl' and v.n in ('xmin', 'ymin', 'width', 'height') and v.child('init') is not None and 'llround' in v.child('init').text()}
-    for k_, m_ in (('width', 'xmin'), ('height', 'ymin')):
-        if k_ in dv and m_ in dv:
-            dv[k_] = re.sub(r'\b%s\b' % m_, dv[m_], dv[k_])
-    ok = dv.get('xmin') == 'llround((bbmin.x * state.scaling))' and dv.get('ymin') == 'llround((bbmin.y * state.scaling))' and dv.get('width') == '(llround((bbmax.x * state.scaling)) - llround((bbmin.x * state.scaling)))' and dv.get('height') == '(llround((bbmax.y * state.scaling)) - llround((bbmin.y * state.scaling)))'
+    # evaluated (minieval.value_at) for the box (0.4, -1.6) .. (2.6, 0.4) with scaling 1: the rounded corners are (0, -2) and (3, 0), so the
+    # property states 0, -2, 3, 2 - rounding the differences 2.2 and 2.0 instead would state 2 and 2
+    import math as _math
+    from .. import minieval as _M
+    dvn = {v.n: v for v in w.walk() if v.k == 'VarDecl' and v.n in ('xmin', 'ymin', 'width', 'height') and v.child('init') is not None and 'llround' in v.child('init').text()}
+
+    def _hk(callee, args, node):
+        if (callee or '').split('::')[-1] in ('llround', 'lround'):
+            v_ = float(args[0])
+            return (int(_math.floor(abs(v_) + 0.5)) * (1 if v_ >= 0 else -1),)
+        return None
+    dv = {}
+    for k_, v_ in dvn.items():
+        try:
+            dv[k_] = _M.value_at(db, v_.child('init'), members={'bbmin.x': 0.4, 'bbmin.y': -1.6, 'bbmax.x': 2.6, 'bbmax.y': 0.4, 'state.scaling': 1.0}, hook=_hk)
+        except AnalysisBroken as ex:
+            dv[k_] = 'not evaluable (%s)' % ex
+    ok = dv == {'xmin': 0, 'ymin': -2, 'width': 3, 'height': 2}
     ctx.check(ok, 'R-UNIT', 'write_oas/S_BOUNDING_BOX-extents', w.loc(), 'the box property states the rounded lower-left corner and the differences of the rounded corners (what the written geometry spans)',
               'S_BOUNDING_BOX extents are not differences of the rounded corners: %s' % dv)
     # cell offsets: ftell at the CELL record
